@@ -151,6 +151,34 @@ theorem uint_nonempty (bs : Bytes) (b : BigUint) (r : Bytes) (h : deUint bs = .o
               intro hv; subst hv; simp at hl; exact hn hl.symm
       · simp at h
 
+/-- a loaded rational has a non-zero denominator (whatever its limb representation): later arithmetic never divides by,
+or takes the logarithm of, a zero denominator -/
+theorem rat_den_nonzero (bs : Bytes) (q : BigRat) (r : Bytes) (h : deRat bs = .ok (q, r)) : isZeroU q.den = false := by
+  unfold deRat at h
+  cases h1 : deU8 bs with
+  | error e => simp [h1, andThen] at h
+  | ok p =>
+    obtain ⟨s, r1⟩ := p
+    simp only [h1, andThen] at h
+    split at h
+    · cases h
+    · cases h2 : deUint r1 with
+      | error e => simp [h2] at h
+      | ok p2 =>
+        obtain ⟨n, r2⟩ := p2
+        simp only [h2] at h
+        cases h3 : deUint r2 with
+        | error e => simp [h3] at h
+        | ok p3 =>
+          obtain ⟨d, r3⟩ := p3
+          simp only [h3] at h
+          split at h
+          · cases h
+          · rename_i hz
+            injection h with h; injection h with h4 h5
+            subst h4
+            simpa using hz
+
 /-- a loaded date has a non-zero year, a month in 1..12 and a day in 1..31 -/
 theorem date_validated (bs : Bytes) (d : SDate) (r : Bytes) (h : deDate bs = .ok (d, r)) :
     d.year ≠ 0 ∧ 1 ≤ d.month ∧ d.month ≤ 12 ∧ 1 ≤ d.day ∧ d.day ≤ 31 := by
